@@ -1,0 +1,28 @@
+//go:build verif
+
+package ocimem
+
+import "sync/atomic"
+
+// Verification hooks (build tag verif): scheduling points inside the
+// multi-step operations of the in-memory registry. Nothing here is compiled
+// into normal builds.
+
+var verifYieldFunc atomic.Pointer[func(point string, b *Buffer)]
+
+// VerifSetYield installs f to be called at the named scheduling points
+// (currently "Buffer.Commit:checked", between the digest check and the
+// commit callback, with no lock held). A nil f removes the hook.
+func VerifSetYield(f func(point string, b *Buffer)) {
+	if f == nil {
+		verifYieldFunc.Store(nil)
+		return
+	}
+	verifYieldFunc.Store(&f)
+}
+
+func verifYield(point string, b *Buffer) {
+	if f := verifYieldFunc.Load(); f != nil {
+		(*f)(point, b)
+	}
+}
